@@ -292,7 +292,11 @@ def localize(rigobj, cls, spec, ids, prefix, variant):
         s.expire_all()
         objs = {o.id: o for o in s.scalars(sa.select(cls).where(cls.id.in_(ids)))}
         conn = s.connection()
-        comp = ev._EvaluatorCompiler(cls)
+        try:
+            # an evaluator that accepts execute-time parameters is given them, as the ORM would
+            comp = ev._EvaluatorCompiler(cls, spec_params(spec))
+        except TypeError:
+            comp = ev._EvaluatorCompiler(cls)
         for sub in subspecs_postorder(spec):
             try:
                 expr = build(sub, cls)
@@ -506,7 +510,7 @@ class Rig:
         cls = self.rig.Item if table == "ret" else self.rig.ItemNR
         kind, crit, setspec = steps[stepno]
         first = bad[0]
-        mech = detail = None
+        mech = detail = generated_mech = None
         ids = [b["id"] for b in bad][:6]
         allids = [b["id"] for b in bad]
         prefix = steps[:stepno]
@@ -530,10 +534,10 @@ class Rig:
                     # Was at least one matched in-session object handled correctly?
                     badids = {b["id"] for b in bad}
                     cols = self.rig.ITEM_COLS
-                    handled = [i for i, p in pre.items() if i not in badids and i in rows and any(
-                        c in p and _norm(p[c]) != _norm(rows[i][cols.index(c)]) for c in diffkeys)]
-                    what = "server-onupdate" if diffkeys <= {"ts"} else "onupdate" if "ts" not in diffkeys else "generated"
-                    mech = "%s-attribute-not-expired-on-%s-matched-objects" % (what, "later" if handled else "any")
+                    # (every case starts with ts = 0 on all rows: ts > 0 <=> the row was matched)
+                    handled = [i for i in pre if i not in badids and i in rows and rows[i][cols.index("ts")]]
+                    what = "server-onupdate" if "ts" in diffkeys else "onupdate"
+                    generated_mech = "%s-attribute-not-expired-on-%s-matched-objects" % (what, "later" if handled else "any")
         if mech is None:
             # rebuild the pre-state, localize in criteria, then in the SET values
             if crit is not None and sync in ("evaluate", "auto"):
@@ -547,6 +551,10 @@ class Rig:
                         mech, detail = localize(self, cls, v, allids, prefix, variant)
                         if mech:
                             break
+        if mech is None and generated_mech is not None:
+            # no evaluator divergence explains it (a mis-evaluated match whose SET happens to
+            # leave the targets unchanged would also show only generated columns)
+            mech = generated_mech
         if mech is None and kind == "update":
             targets = {k for k, _ in setspec}
             cross = any((spec_cols(v) & targets) - {k} for k, v in setspec)
